@@ -31,6 +31,9 @@ ASSUMPTIONS = [
 
 def targets(ctx):
     c = corpus()
+    from . import _poison
+
+    _poison_fn = lambda: _poison.apply(c)  # noqa: E731
     schema = c.schema
     adapters = {}
     from .c08 import ENTRIES, decode_via
@@ -259,8 +262,8 @@ def targets(ctx):
 
     return [
         Target("grammar_schema_values", grammar_ev, strategy=gstrat, quick=3, thorough=40, time_quick=60, time_thorough=900, pin_budget=10, pin_sigs=1),
-        Target("corpus_values_reencoded", ev, strategy=strat(), quick=450, thorough=6000, time_quick=70),
-        Target("dense_reencodings", ev, strategy=dense(), quick=350, thorough=5000, time_quick=70),
+        Target("corpus_values_reencoded", ev, poison=_poison_fn, strategy=strat(), quick=450, thorough=6000, time_quick=70),
+        Target("dense_reencodings", ev, poison=_poison_fn, strategy=dense(), quick=350, thorough=5000, time_quick=70),
         _seq.target("C02"),
         _wkt.target("C02"),
     ]
